@@ -276,11 +276,37 @@ fn c06_project(ctx: &mut Ctx, b: &Built, r: &mut StdRng) {
     }
     // 3. option mismatch and source edits, judged by the build run right after
     let srcs = model::sources(&b.case.files);
-    for step in ["flip-trailing", "edit-append-text", "edit-append-empty-directive", "edit-append-failing-directive"] {
+    for step in ["flip-trailing", "edit-append-text", "edit-append-empty-directive", "edit-append-failing-directive", "edit-temp-body"] {
         let mut trailing = b.case.trailing;
         let mut restore: Option<(String, Vec<u8>)> = None;
         match step {
             "flip-trailing" => trailing = !trailing,
+            "edit-temp-body" => {
+                // change only a content line of a temp directive (the temp file on disk is now stale)
+                let mut done = false;
+                for s in &srcs {
+                    let old = b.case.files[s].clone();
+                    let t = String::from_utf8_lossy(&old).to_string();
+                    let lines: Vec<&str> = t.split_inclusive('\n').collect();
+                    if let Some(i) = (0..lines.len().saturating_sub(1)).find(|&i| lines[i].contains("TXTPP#temp ") && lines[i + 1].contains("body")) {
+                        let mut out = String::new();
+                        for (k, l) in lines.iter().enumerate() {
+                            if k == i + 1 {
+                                out.push_str(&l.replacen("body", "edited body", 1));
+                            } else {
+                                out.push_str(l);
+                            }
+                        }
+                        std::fs::write(b.root.join(s), out.as_bytes()).unwrap();
+                        restore = Some((s.clone(), old));
+                        done = true;
+                        break;
+                    }
+                }
+                if !done {
+                    continue;
+                }
+            }
             _ => {
                 let s = &srcs[r.gen_range(0..srcs.len())];
                 let old = b.case.files[s].clone();
@@ -493,6 +519,11 @@ fn c07_case(ctx: &mut Ctx, case: &ProjectCase, mlog: &Path, history: &str, r: &m
             }
             break;
         }
+        for p in s0.files.keys() {
+            if model::is_txtpp(p) && !s.files.contains_key(p) {
+                ctx.violation("C07:deleted-txtpp-source", format!("clean deleted the .txtpp file {p}"), cj("txtpp file deleted"));
+            }
+        }
         let mark1 = std::fs::read(mlog).unwrap_or_default();
         if mark1 != mark0 {
             ctx.violation("C07:clean-ran-command", format!("a run command executed during clean: marker log grew by {:?}", String::from_utf8_lossy(&mark1[mark0.len().min(mark1.len())..])), cj("marker"));
@@ -574,6 +605,30 @@ fn c07_make(ctx: &mut Ctx, r: &mut StdRng, mlog: &Path, erroneous: bool) -> Proj
             text = format!("{line}{text}");
             files.insert(s, text.into_bytes());
         }
+    }
+    if erroneous {
+        let srcs = model::sources(&files);
+        let s = srcs[r.gen_range(0..srcs.len())].clone();
+        let mut text = String::from_utf8_lossy(&files[&s]).to_string();
+        if !text.is_empty() && !text.ends_with('\n') {
+            text.push('\n');
+        }
+        match r.gen_range(0..4) {
+            0 => {
+                // the file includes its own output: a build error (cycle), nothing clean should care about
+                let own = model::output_of(&s).unwrap();
+                text.push_str(&format!("<!--c TXTPP#include {}\n<!--c TXTPP#temp cyc_{}.tmp\n<!--c after the cycle\n", own.rsplit('/').next().unwrap(), r.gen_range(0..3)));
+            }
+            1 => {
+                // a temp directive naming an existing source of the `stem.txtpp.ext` shape: refused by
+                // build, and clean must never delete a .txtpp file
+                if let Some(victim) = srcs.iter().find(|x| **x != s && !x.ends_with(".txtpp")) {
+                    text.push_str(&format!("<!--c TXTPP#temp {}\n<!--c overwritten\n", crate::gen::rel(model::dir_of(&s), victim)));
+                }
+            }
+            _ => {}
+        }
+        files.insert(s, text.into_bytes());
     }
     let mut c = ProjectCase::simple(files);
     c.trailing = p.trailing;
